@@ -7,7 +7,7 @@ export GOFLAGS=-mod=mod GOPROXY=off GOSUMDB=off GOTOOLCHAIN=local
 WT=$1; ID=$2; shift 2; PROPS="$@"
 M=$WT/MUTANT
 [ -f $M/patch.diff ] || { echo "no patch"; exit 2; }
-demo_dir=v2; grep -qi "v1compat" $M/NOTES.md && grep -q "^package jwt" $M/demo_test.go && grep -q "v1compat" <(head -40 $M/NOTES.md) && [ -f $WT/v2/v1compat/zz_mutant_demo_test.go ] && demo_dir=v2/v1compat
+demo_dir=v2; head -12 $M/NOTES.md | grep -qiE "v1compat/zz_mutant_demo_test.go|belongs in .?v2/v1compat|goes in .?v2/v1compat" && demo_dir=v2/v1compat
 cd $WT && git checkout -q -- . 2>/dev/null; rm -f v2/zz_mutant_demo_test.go v2/v1compat/zz_mutant_demo_test.go
 git apply $M/patch.diff || { echo "patch does not apply"; exit 2; }
 suite=$(cd v2 && go test -count=1 ./... 2>&1 | tail -5)
